@@ -2,7 +2,7 @@
 """Regenerates MANIFEST.json from checks.json (single source of truth) and validates it."""
 import json, sys, os
 V = "/verif"
-reg = json.load(open(V + "/checks.json"))
+reg = {n[:-5]: json.load(open(V + "/checks.d/" + n)) for n in sorted(os.listdir(V + "/checks.d")) if n.endswith(".json")}
 props = [json.loads(l) for l in open(V + "/properties.jsonl")]
 ids = [p["id"] for p in props]
 na_reasons = json.load(open(V + "/not_applicable.json")) if os.path.exists(V + "/not_applicable.json") else {}
